@@ -28,7 +28,7 @@ KEYS = {1: "a", 2: "b", 3: "c"}
 
 def wv(v):
     """the second value column: derived from v, missing in different rows than v"""
-    return {0: NAN, 1: 0, 2: 2, NAN: 1}[v]
+    return {0: NAN, 1: 0, 2: 2, NAN: 1}.get(v, 1)
 
 
 def mk(rows, col="v"):
@@ -110,6 +110,25 @@ def pandas_whole(family, agg, winkind, w, df, col):
 
 # ---- real pipelines ------------------------------------------------------------------------------------------
 
+POISON = 7      # a value on which the user's aggregation raises (cfg["failagg"])
+
+
+class Injected(Exception):
+    pass
+
+
+def failing_sum():
+    """a user-defined aggregation: Sum that refuses batches containing POISON"""
+    from streamz.dataframe.aggregations import Sum
+
+    class CheckedSum(Sum):
+        def on_new(self, acc, new):
+            if (new == POISON).any().any() if hasattr((new == POISON).any(), "any") else (new == POISON).any():
+                raise Injected("poisoned batch")
+            return Sum.on_new(self, acc, new)
+    return CheckedSum()
+
+
 def build(cfg, source, start=None, with_state=False):
     """returns the streaming result object for cfg on a fresh DataFrame over `source`"""
     ex = mk([])
@@ -166,6 +185,8 @@ def build(cfg, source, start=None, with_state=False):
         if agg == "size":
             r = x.size
             return (r() if callable(r) else r), mid
+        if cfg.get("failagg"):
+            return x.aggregate(failing_sum()), mid
         return getattr(x, agg)(), mid
     if fam == "rolling":
         if start is None:
@@ -226,11 +247,24 @@ def run(cfg, batches, cut=None):
             if srcB is not None:
                 nB = len(LB)
                 srcB.emit(raw)
+        except Injected:
+            # the user's aggregation refused this batch: the exception reached the emitter; nothing was emitted, and every later
+            # result must be what it would be had this batch never been offered (C16)
+            st["fails"] = True
+            st["raised"] = True
+            st["emitted_on_failure"] = len(LA) > nA
+            steps.append(st)
+            continue
         except Exception as e:
             err = repr(e)[:200]
             st["error"] = err
             steps.append(st)
             break
+        if cfg.get("failagg") and any(v == POISON for v, _, _ in b):
+            st["fails"] = True
+            st["raised"] = False        # the poisoned batch went through
+            steps.append(st)
+            continue
         # rows that reached the aggregation (after the optional filter / assignment)
         eff = raw
         if LM is not None:
@@ -298,6 +332,9 @@ def configs(tier):
     for agg in ("cumsum", "cumprod", "cummin", "cummax"):
         add("cumulative", agg)
     add("cumulative", "cumsum", frame=True, col="w")
+    # a user-defined aggregation that raises on some batches (C16 on the dataframe accumulators)
+    add("window", "sum", "rows", 2, failagg=True); add("window", "sum", "rows", 3, failagg=True)
+    add("window", "sum", "time", 2, failagg=True); add("window", "sum", "expanding", 0, failagg=True)
     for com in (0, 1, 3):
         add("ewm", "mean", "expanding", com)
     add("ewm", "mean", "expanding", 1, frame=True, col="v")      # (column w has missing values: outside the ewm model)
@@ -350,6 +387,17 @@ def main():
     per = 25 if a.tier == "quick" else 250
     for cfg in configs(a.tier):
         if a.only and a.only not in json.dumps(cfg):
+            continue
+        if cfg.get("failagg"):
+            for seq in batch_sequences(cfg, rng, per, maxbatches=4):
+                # one or two poisoned batches somewhere after the first
+                seq = [b for b in seq]
+                for _ in range(rng.randint(1, 2)):
+                    t = max([r[2] for b in seq for r in b] + [0])
+                    pos = rng.randint(1, len(seq))
+                    tb = max([r[2] for b in seq[:pos] for r in b] + [0])
+                    seq.insert(pos, [[POISON, 1, tb], [1, 1, tb]][:rng.randint(1, 2)])
+                runs.append(run(cfg, seq))
             continue
         for seq in batch_sequences(cfg, rng, per):
             runs.append(run(cfg, seq))
